@@ -37,7 +37,8 @@ def main():
             continue
         m = json.load(open(mp))
         name = os.path.basename(d)
-        rnd = "round 3" if "-r3-" in name else ("round 2" if "-r2-" in name else "round 1")
+        m_r = re.search(r"-r(\d+)-", name)
+        rnd = "round %s" % m_r.group(1) if m_r else "round 1"
         if name == "C12-overlap" or m.get("status", "").startswith("superseded"):
             rnd = "other (pre-fix tree / superseded)"
         pid = m.get("property", name.split("-")[0])
